@@ -4,5 +4,8 @@ cd "$(dirname "$0")" || exit 2
 export GOFLAGS=-mod=mod GOPROXY=off GOSUMDB=off GOTOOLCHAIN=local GODEBUG=goindex=0
 mkdir -p .work/bin evidence replays
 go build -o .work/bin/vcheck-default ./cmd/vcheck || { echo "setup: harness build failed"; exit 2; }
-if [ -x tools/setup_extra.sh ]; then tools/setup_extra.sh || exit 2; fi
+# pre-build the scheduler-overlay binaries and the -race binary of the schedule checks (the checks rebuild them
+# incrementally from the current /repo sources on every run)
+VERIF_BUILD_ONLY=1 ./check C10 quick || { echo "setup: building the C10 overlay / race binaries failed"; exit 2; }
+VERIF_BUILD_ONLY=1 ./check C18 quick || { echo "setup: building the C18 overlay binaries failed"; exit 2; }
 echo "setup ok: $(.work/bin/vcheck-default list | tr '\n' ' ')"
